@@ -414,6 +414,8 @@ def _auto(sc, res, clock, log):
     res.states.add(("auto", sc["ansi"], outcome))
     res.states.add(tuple(sched.choices[:60]))
     log.add("schedule", tuple(sched.choices))
+    res.observed = {"recorded_schedule": list(sched.choices[:60]), "scheduling_points": dict(sched.points),
+                    "context_switches": sched.switches, "simulated_ms": clock.us // 1000}
     res.nontrivial = len(sched.choices) >= 1
 
 
